@@ -84,7 +84,9 @@ Find(cfg, store, idsGiven, ids, rp) ==
               IN IF r = <<>> THEN FindRes(FALSE, NoCredentials, <<>>) ELSE FindRes(TRUE, 0, <<r[1]>>)
 
 Save(cfg, store, c) ==
-    CASE cfg.storeKind = "reference" -> Put(store, c)
+    CASE cfg.storeKind = "reference" ->
+              \* a new record goes to the end of the listing, or to its front when the store lists newest first
+              IF cfg.order = "newest" /\ c.id \notin Ids(store) THEN <<c>> \o store ELSE Put(store, c)
       [] cfg.storeKind = "memory"    -> Put(store, c)
       [] cfg.storeKind = "slot"      -> <<c>>            \* the slot is replaced
 
